@@ -11,6 +11,7 @@ from typing import Any, Dict, Generator, Tuple
 import ruamel.yaml # type: ignore
 from ruamel.yaml import YAML
 from ruamel.yaml.parser import ParserError
+from ruamel.yaml.reader import ReaderError
 from ruamel.yaml.composer import ComposerError, ReusedAnchorWarning
 from ruamel.yaml.constructor import ConstructorError, DuplicateKeyError
 from ruamel.yaml.scanner import ScannerError
@@ -138,6 +139,9 @@ class Parsers:
         except ScannerError as ex:
             logger.error("YAML syntax error {}:  {}"
                         .format(str(ex.problem_mark).lstrip(), ex.problem))
+            data_available = False
+        except (ReaderError, UnicodeDecodeError) as ex:
+            logger.error("YAML reading error:  {}".format(ex))
             data_available = False
         except DuplicateKeyError as dke:
             omits = [
@@ -285,6 +289,9 @@ class Parsers:
             has_error = True
             logger.error("YAML syntax error {}:  {}"
                         .format(str(ex.problem_mark).lstrip(), ex.problem))
+        except (ReaderError, UnicodeDecodeError) as ex:
+            has_error = True
+            logger.error("YAML reading error:  {}".format(ex))
         except DuplicateKeyError as dke:
             has_error = True
             omits = [
